@@ -135,6 +135,7 @@ def run(ctx):
             run_tree(ctx, r, drv, h_tree, ctx.seed + 1000 * k, 1500)
         for k in range(3):
             run_rt(ctx, r, drv, h_rt, ctx.seed + 1000 * k, 3, 9000)
+    r.notes.append('F19 (call_once after a throw: late event set leaves waiters spinning without yielding) is repaired; the once_retry scenario (hook 930 delays the thrower between its two hand-back steps) reports it again when the order is reverted')
     r.notes.append('F12 (latch::wait / arrive_and_wait returning early after a notified timed wait) is repaired in the tree; the '
                    'latch_f12 monitor reports it again when the repair is reverted (about 4% of the trials on the original code)')
     return r
